@@ -36,6 +36,15 @@ class arm_CGen(CGen):
                 label = self.lifter.get_loc_key_for_instr(instr)
                 irblocks = []
                 index, irblocks = self.lifter.do_it_block(label, index, block, assignments, True)
+                # Simplify high level operators, as for the other instructions
+                # (the C translator does not know the condition operators)
+                irblocks = [
+                    [
+                        irblock.simplify(expr_simp_high_to_explicit)[1]
+                        for irblock in irblocks_group
+                    ]
+                    for irblocks_group in irblocks
+                ]
                 irblocks_list += irblocks
                 continue
 
